@@ -213,6 +213,7 @@ func Random(r *rand.Rand, ft Features) *cat.Catalog {
 		f.Ps = ft.params(r, ft.MaxParams, own)
 		f.Enc.Variadic = pick(r, 0.1)
 		f.Enc.ErrFirst = pick(r, 0.2)
+		f.Enc.RNest = pick(r, 0.25)
 		if pick(r, 0.25) {
 			f.Enc.Nest = 1 + r.Intn(2)
 		}
@@ -287,6 +288,7 @@ func Random(r *rand.Rand, ft Features) *cat.Catalog {
 			f.Enc.Nest = 1
 		}
 		f.Enc.ErrFirst = pick(r, 0.2)
+		f.Enc.RNest = pick(r, 0.3)
 		c.Fns[fmt.Sprintf("d%d", i)] = f
 	}
 	for i := 1; i <= ft.Invs; i++ {
